@@ -71,6 +71,17 @@ def queries(tier):
             dd["SYMTOPICS"] = 1
             words.append((w, dd))
     qs += pub_queries(tier)
+    XENV = ENV + ["env_idmap.c"]
+    for rq in (0, 1, 2):
+        for nw in (1, 2, 3):
+            for waiter in (0, 1):
+                d = {"RQ": rq, "NW": nw}
+                if waiter:
+                    d["WAITER"] = 1
+                qs.append(Query("xsub-rq%d-nw%d%s" % (rq, nw, "-waiter" if waiter else ""), "c05/xsub.c", tus=TUS + ["core/msgqueue.c"], env=XENV, defs=d, unwind=12,
+                                unwind_rules=KIT_RULES, timeout=300, group="c05/xsub.c", params={"protocol": "xsub0", "recv_queue": rq, "arrivals": nw, "receiver_waiting": bool(waiter)}))
+    qs.append(Query("xsub-badpeer", "c05/xsub.c", tus=TUS + ["core/msgqueue.c"], env=XENV, defs={"BADPEER": 1}, unwind=12, unwind_rules=KIT_RULES, timeout=120,
+                    group="~xsub-badpeer", params={"protocol": "xsub0", "case": "peer protocol mismatch"}))
     seen = set()
     for w, d in words:
         k = (w, tuple(sorted(d.items())))
